@@ -72,6 +72,8 @@ func main() {
 			usage()
 		}
 		os.Exit(replayFile(os.Args[2]))
+	case "implementedchild":
+		os.Exit(implementedChild())
 	case "implemented":
 		for _, e := range measureImplemented() {
 			fmt.Println(e)
